@@ -11,6 +11,7 @@ import (
 	context2 "github.com/oneconcern/datamon/pkg/context"
 	"github.com/oneconcern/datamon/pkg/core"
 	"github.com/oneconcern/datamon/pkg/model"
+	"go.uber.org/zap"
 	"gopkg.in/yaml.v2"
 
 	"verif/harness/store"
@@ -24,7 +25,7 @@ func init() {
 // runSchedule runs n concurrent CreateRepo("r1") under the gate, following the
 // given choice prefix and then always the lowest-numbered live client.
 // It returns the choices made, the live set at every step and the recorded trace.
-func runSchedule(n int, prefix []int, crc bool) (choices []int, live [][]int, trace []interface{}, err error) {
+func runSchedule(n int, prefix []int, crc bool, op string) (choices []int, live [][]int, trace []interface{}, err error) {
 	w := store.NewWorld()
 	w.Record = true
 	w.KeepData["meta"] = true
@@ -39,8 +40,13 @@ func runSchedule(n int, prefix []int, crc bool) (choices []int, live [][]int, tr
 		stores := context2.NewStores(mk("wal"), mk("readlog"), mk("blob"), mk("meta"), mk("vmeta"))
 		results[i] = make(chan error, 1)
 		go func() {
-			e := core.CreateRepo(model.RepoDescriptor{Name: "r1", Description: names[i], Timestamp: time.Now(),
-				Contributor: model.Contributor{Name: "v", Email: "v@example.com"}}, stores)
+			var e error
+			if op == "lock" {
+				e = core.PurgeLock(stores, core.WithPurgeLogger(zap.NewNop()))
+			} else {
+				e = core.CreateRepo(model.RepoDescriptor{Name: "r1", Description: names[i], Timestamp: time.Now(),
+					Contributor: model.Contributor{Name: "v", Email: "v@example.com"}}, stores)
+			}
 			gate.End(names[i])
 			results[i] <- e
 		}()
@@ -69,6 +75,9 @@ func runSchedule(n int, prefix []int, crc bool) (choices []int, live [][]int, tr
 				var rd model.RepoDescriptor
 				_ = yaml.Unmarshal(e.Data, &rd)
 				ev["val"] = rd.Description
+				if op == "lock" {
+					ev["val"] = e.Client
+				}
 			default:
 				continue
 			}
@@ -109,6 +118,9 @@ func runSchedule(n int, prefix []int, crc bool) (choices []int, live [][]int, tr
 		}
 		flush()
 	}
+	if op == "lock" {
+		return choices, live, trace, nil
+	}
 	// the stored descriptor
 	v := store.NewView(w, "meta", &store.Ctl{Name: "obs"})
 	rd, gerr := v.Get(context.Background(), model.GetArchivePathToRepoDescriptor("r1"))
@@ -130,6 +142,7 @@ func createRace(args []string) error {
 	n := fl.Int("creators", 2, "number of concurrent creators")
 	maxSched := fl.Int("max", 2000, "maximal number of schedules")
 	crc := fl.Bool("crc", false, "CRC-capable stores")
+	op := fl.String("op", "createrepo", "createrepo | lock")
 	_ = fl.Parse(args)
 	res := vutil.NewResult("createrace")
 	var all []interface{}
@@ -139,7 +152,7 @@ func createRace(args []string) error {
 	for len(stack) > 0 && res.Behaviours < *maxSched {
 		prefix := stack[len(stack)-1]
 		stack = stack[:len(stack)-1]
-		choices, live, trace, err := runSchedule(*n, prefix, *crc)
+		choices, live, trace, err := runSchedule(*n, prefix, *crc, *op)
 		if err != nil {
 			return err
 		}
